@@ -620,7 +620,9 @@ def ws_case(ctx, drv, tms, rng, WS):
     rows, lines = [], []
     textual = [rng.random() < 0.3 for _ in range(n)]
     for i in range(k):
-        toks = [(rnd(rng, CODE, 3) + "-" + rnd(rng, "0123456789", 2)) if textual[j] else data_token(rng) for j in range(n)]
+        # a text token must not read as a number ("09E-56" does): it begins with a letter no numeral contains
+        toks = [(rnd(rng, "GHKLMPQRSTUVWYZ", 1) + rnd(rng, CODE, 2) + "-" + rnd(rng, "0123456789", 2)) if textual[j] else data_token(rng)
+                for j in range(n)]
         sep = lambda: "".join(rng.choice(WS[:5]) for _ in range(rng.randint(1, 3)))
         ln = " " + (sep() if rng.random() < 0.3 else "") + toks[0] + "".join(sep() + t for t in toks[1:]) + (sep() if rng.random() < 0.4 else "")
         ln = ln.replace("\r", " ")
